@@ -313,6 +313,18 @@ def scenario_bulk(rng, quick, n, mode):
         ops.append({"op": "begin_batch", "skip_sync": rng.random() < 0.7, "no_auto": rng.random() < 0.7, "level": rng.choice([1, 3, 9]),
                     "presize": rng.choice([0, 0, 262144])})
         ops += docs + [{"op": "end_batch"}, {"op": "commit"}]
+    elif mode == "pending+batch":
+        # puts still pending in the log when the batch starts and pre-sizes the log beyond its current size
+        cut = max(1, n // 3)
+        ops += docs[:cut]
+        ops.append({"op": "begin_batch", "skip_sync": rng.random() < 0.5, "no_auto": True, "level": 3, "presize": rng.choice([262144, 1048576])})
+        ops += docs[cut:] + [{"op": "end_batch"}, {"op": "commit"}]
+    elif mode == "commit+skip":
+        # an ordinary full commit first (its indexes, sketches and manifests exist), then skip-index commits and a finalize
+        cut = max(1, n // 2)
+        ops += docs[:cut] + [{"op": "commit"}]
+        ops.append({"op": "begin_batch", "skip_sync": True, "no_auto": True})
+        ops += docs[cut:] + [{"op": "end_batch"}, {"op": "commit_skip"}, {"op": "finalize"}]
     else:
         cut = max(1, n // 2)
         ops.append({"op": "begin_batch", "skip_sync": True, "no_auto": True})
@@ -340,7 +352,7 @@ def engine(tier):
     sizes = [6, 14, 30] if quick else [4, 8, 14, 24, 40, 60, 90, 120] * 3
     for n in sizes:
         scs.append({"id": len(scs) + 1, "ops": scenario(rng, quick, n)})
-    for mode in (["plain", "batch", "skip", "skip+commit"] if quick else ["plain", "batch", "batch", "batch", "skip", "skip", "skip+commit", "skip+commit"] * 2):
+    for mode in (["plain", "batch", "skip", "skip+commit", "pending+batch", "commit+skip"] if quick else ["plain", "batch", "batch", "batch", "skip", "skip", "skip+commit", "skip+commit", "pending+batch", "commit+skip"] * 2):
         scs.append({"id": len(scs) + 1, "ops": scenario_bulk(rng, quick, rng.choice([5, 9]) if quick else rng.choice([5, 12, 30, 60]), mode)})
     wd, paths = eng_core.run_scenarios(scs, "qry", jobs=min(12, len(scs)))
     accepted, events, diags, devs = eng_core.validate(paths, wd, mk_cfg=lambda dbg: eng_core.trace_cfg(dbg, defects=AS_BUILT), jobs=min(10, len(scs)), max_diag=40)
